@@ -54,38 +54,47 @@ pub enum Error {
 type Result<T> = std::result::Result<T, Error>;
 
 fn parse_dbus_addr_str(addr: &str) -> Result<UnixAddr> {
+    // lists of addresses ("addr1;addr2") are not supported
+    if addr.contains(';') {
+        return Err(Error::AddressTypeNotSupported(addr.to_owned()));
+    }
+
     // split the address string into <system>:rest
     let (addr_system, addr_pairs) = addr.split_once(':').ok_or(Error::NoAddressFound)?;
     if addr_system != "unix" {
         return Err(Error::AddressTypeNotSupported(addr.to_owned()));
     }
 
-    // split the rest of the address string into each <key>=<value> pair
+    // split the rest of the address string into each <key>=<value> pair. Every pair has to be
+    // well formed, and exactly one of them has to name the socket ("path" or "abstract") with a
+    // non-empty value. All other keys are ignored.
+    let mut socket = None;
     for pair in addr_pairs.split(',') {
         let (key, value) = pair
             .split_once('=')
             .ok_or_else(|| Error::AddressTypeNotSupported(addr.to_owned()))?;
 
-        match key {
-            "path" => {
-                let p = PathBuf::from(&value);
-                if p.exists() {
-                    return Ok(UnixAddr::new(&p).map_err(io::Error::from)?);
-                } else {
-                    return Err(Error::PathDoesNotExist(value.to_string()));
-                }
+        if key == "path" || key == "abstract" {
+            if socket.is_some() || value.is_empty() {
+                return Err(Error::AddressTypeNotSupported(addr.to_owned()));
             }
-            "abstract" => {
-                #[cfg(target_os = "linux")]
-                {
-                    return Ok(UnixAddr::new_abstract(value.as_bytes()).map_err(io::Error::from)?);
-                }
-            }
-            _ => {}
+            socket = Some((key, value));
         }
     }
 
-    Err(Error::AddressTypeNotSupported(addr.to_owned()))
+    match socket {
+        Some(("path", value)) => {
+            let p = PathBuf::from(&value);
+            if p.exists() {
+                Ok(UnixAddr::new(&p).map_err(io::Error::from)?)
+            } else {
+                Err(Error::PathDoesNotExist(value.to_string()))
+            }
+        }
+        #[cfg(target_os = "linux")]
+        Some((_, value)) => Ok(UnixAddr::new_abstract(value.as_bytes()).map_err(io::Error::from)?),
+        _ => Err(Error::AddressTypeNotSupported(addr.to_owned())),
+    }
 }
 
 /// Convenience function that returns the UnixAddr of the session bus according to the env
